@@ -20398,6 +20398,158 @@ pub mod verif_hooks {
 	use super::*;
 	use crate::sign::KeysManager;
 
+	pub struct FixedFee;
+	impl FeeEstimator for FixedFee {
+		fn get_est_sat_per_1000_weight(&self, _t: ConfirmationTarget) -> u32 {
+			253
+		}
+	}
+	pub struct NoLog;
+	impl Logger for NoLog {
+		fn log(&self, _record: crate::util::logger::Record) {}
+	}
+
+	fn dummy_add() -> msgs::UpdateAddHTLC {
+		msgs::UpdateAddHTLC {
+			channel_id: ChannelId([0; 32]),
+			htlc_id: 0,
+			amount_msat: 1000,
+			payment_hash: PaymentHash([0; 32]),
+			cltv_expiry: 100,
+			skimmed_fee_msat: None,
+			onion_routing_packet: msgs::OnionPacket {
+				version: 0,
+				public_key: Err(bitcoin::secp256k1::Error::InvalidPublicKey),
+				hop_data: [0; 20 * 65],
+				hmac: [0; 32],
+			},
+			blinding_point: None,
+			hold_htlc: None,
+			accountable: None,
+		}
+	}
+
+	fn inbound_state(tag: u8, reason: u8) -> InboundHTLCState {
+		let res = || InboundHTLCResolution::Pending { update_add_htlc: dummy_add() };
+		match tag {
+			0 => InboundHTLCState::RemoteAnnounced(res()),
+			1 => InboundHTLCState::AwaitingRemoteRevokeToAnnounce(res()),
+			2 => InboundHTLCState::AwaitingAnnouncedRemoteRevoke(res()),
+			3 => InboundHTLCState::Committed { update_add_htlc: InboundUpdateAdd::Legacy },
+			_ => InboundHTLCState::LocalRemoved(match reason {
+				0 => InboundHTLCRemovalReason::FailRelay(msgs::OnionErrorPacket {
+					data: Vec::new(),
+					attribution_data: None,
+				}),
+				1 => InboundHTLCRemovalReason::FailMalformed {
+					sha256_of_onion: [0; 32],
+					failure_code: 0,
+				},
+				_ => InboundHTLCRemovalReason::Fulfill {
+					preimage: PaymentPreimage([0; 32]),
+					attribution_data: None,
+				},
+			}),
+		}
+	}
+
+	fn outcome(success: bool) -> OutboundHTLCOutcome {
+		if success {
+			OutboundHTLCOutcome::Success { preimage: PaymentPreimage([0; 32]), attribution_data: None }
+		} else {
+			OutboundHTLCOutcome::Failure(HTLCFailReason::from_failure_code(
+				LocalHTLCFailureReason::TemporaryNodeFailure,
+			))
+		}
+	}
+
+	fn outbound_state(tag: u8, success: bool) -> OutboundHTLCState {
+		match tag {
+			0 => OutboundHTLCState::LocalAnnounced(Box::new(dummy_add().onion_routing_packet)),
+			1 => OutboundHTLCState::Committed,
+			2 => OutboundHTLCState::RemoteRemoved(outcome(success)),
+			3 => OutboundHTLCState::AwaitingRemoteRevokeToRemove(outcome(success)),
+			_ => OutboundHTLCState::AwaitingRemovedRemoteRevoke(outcome(success)),
+		}
+	}
+
+	/// `[included_in_commitment(generated_by_local), preimage().is_some()]` of the real state enums
+	pub fn inbound_state_table(tag: u8, reason: u8, generated_by_local: bool) -> [bool; 2] {
+		let st = inbound_state(tag, reason);
+		[st.included_in_commitment(generated_by_local), st.preimage().is_some()]
+	}
+	pub fn outbound_state_table(tag: u8, success: bool, generated_by_local: bool) -> [bool; 2] {
+		let st = outbound_state(tag, success);
+		[st.included_in_commitment(generated_by_local), st.preimage().is_some()]
+	}
+
+	/// Builds a real (unfunded) outbound channel, plants one pending HTLC in the given state and
+	/// reports what the real prediction code does with it:
+	/// `[in next set (0/1), value_to_self after claims, value_to_self before]`
+	pub fn next_commitment_probe(
+		inbound: bool, tag: u8, reason_or_success: u8, local: bool, include_unknown: bool,
+	) -> [u64; 3] {
+		let secp_ctx = Secp256k1::new();
+		let keys = KeysManager::new(&[7; 32], 42, 42, true);
+		let fee = LowerBoundedFeeEstimator::new(FixedFee);
+		let node_id = PublicKey::from_secret_key(
+			&secp_ctx,
+			&bitcoin::secp256k1::SecretKey::from_slice(&[42; 32]).unwrap(),
+		);
+		let mut config = UserConfig::default();
+		config.channel_handshake_config.negotiate_anchors_zero_fee_htlc_tx = false;
+		let mut chan = OutboundV1Channel::<KeysManager>::new(
+			&fee,
+			&keys,
+			&keys,
+			node_id,
+			&crate::ln::channelmanager::provided_init_features(&config),
+			10_000_000,
+			100_000_000,
+			42,
+			&config,
+			0,
+			42,
+			None,
+			&NoLog,
+			None,
+		)
+		.unwrap();
+		let amount_msat = 1000;
+		if inbound {
+			chan.context.pending_inbound_htlcs.push(InboundHTLCOutput {
+				htlc_id: 0,
+				amount_msat,
+				cltv_expiry: 100,
+				payment_hash: PaymentHash([0; 32]),
+				state: inbound_state(tag, reason_or_success),
+			});
+		} else {
+			chan.context.pending_outbound_htlcs.push(OutboundHTLCOutput {
+				htlc_id: 0,
+				amount_msat,
+				cltv_expiry: 100,
+				payment_hash: PaymentHash([0; 32]),
+				state: outbound_state(tag, reason_or_success != 0),
+				source: HTLCSource::OutboundRoute {
+					path: crate::routing::router::Path { hops: Vec::new(), blinded_tail: None },
+					session_priv: bitcoin::secp256k1::SecretKey::from_slice(&[1; 32]).unwrap(),
+					first_hop_htlc_msat: 0,
+					payment_id: crate::ln::channelmanager::PaymentId([2; 32]),
+					bolt12_invoice: None,
+				},
+				blinding_point: None,
+				skimmed_fee_msat: None,
+				send_timestamp: None,
+				hold_htlc: None,
+				accountable: false,
+			});
+		}
+		let set = chan.context.get_next_commitment_htlcs(local, None, include_unknown);
+		let after = chan.context.get_next_commitment_value_to_self_msat(local, &chan.funding);
+		[set.len() as u64, after, chan.funding.value_to_self_msat]
+	}
+
 	/// Calls the real `FundedChannel::internal_htlc_satisfies_config`; that method never reads
 	/// `self`, so an uninitialised receiver is handed in (native oracle use only).
 	pub fn htlc_satisfies_config_arith(
